@@ -75,10 +75,6 @@ def check(ctx, report):
     dnskey_sites = set()
     n_risk = 0
     for c in model.concrete_parsables():
-        if c.name == 'SshX509Certificate':
-            report.count('C02.R1', 1, nontrivial=0)
-            report.undecided.append('%s: %s' % (c.name, nondsl[c.name]))
-            continue
         esc = es.of_class(c)
         report.count('C02.R1')
         report.touch(c.resolve('_parse'))
